@@ -134,3 +134,13 @@ claim('C08',
       'fractions summing to one. Symmetry of the run-time adjacency, area tiling and centroids are NOT decided.',
       'Trusted: NumPy indexing semantics modelled in dsa/rules/c08.py; dsa/poly.py.',
       'DESIGN.md 4 C08')
+claim('C12',
+      'registry-slot agreement: record-shape inference (D_shape) of every calc_constants vs every reachable corr_constants read over all 240 accepted combination x grid contexts with exception-typed guard matching; call-shape vs signature check; exact polynomial algebra (D_poly) for the mass-conservation identities',
+      'Structural necessary conditions of C12 (DESIGN 4.12): for every accepted (friction, flow split, mixing) combination with and without spacer grid, every corr_constants[slot][k...] read reachable '
+      'through the correlations call graph from the installed handlers is looked up in the inferred record shape of the module occupying that slot; a miss is classified KeyError/TypeError/IndexError and '
+      'must be caught by an enclosing try of that type (exhaustive over 240 contexts x reachable reads); every slot occupant accepts every call shape used on the slot; schema options map to exactly one '
+      'import branch; and the normalisation sum_i (N_i A_i / A_b) x_i = 1 is verified as an exact algebraic identity for the constant CTD/UCTD splits, the transition iteration update, the approximate '
+      'transition split and the NOV, MIT and SE2 splits. 21 unguarded foreign-slot read sites (mixed-family combinations, reproduced: 200 of 720 constructed cases raise) are listed as known findings. '
+      'Pressure-gradient equality and positivity/finiteness as numbers are NOT decided.',
+      'Trusted: shape inference of dsa/shape.py (opaque on anything it cannot model: no verdict), resolver of dsa/resolve.py, positivity of geometric quantities for the power-symbol rules.',
+      'DESIGN.md 4 C12')
